@@ -16,7 +16,7 @@ ASSUMPTIONS = [
     "reduction to a 1-D integral over h=w'x+w0 (x|h is Gaussian) with a break at h=0; Dx=2 with two units (smooth links) -> tensor "
     "Gauss-Hermite at 40 and 56 nodes per dimension (unconverged cases excluded)",
     "ln p(y|x) itself uses the covariance AA' + A_k diag(link(h)) A_k' inverted by numpy (not the library's precision)",
-    "inequality judged with 1e-7*max(1,|truth|) slack; tightness by the decay ratio gap(eps/10) <= gap(eps)/30 + 1e-9",
+    "inequality judged with 1e-7*max(1,|truth|) slack; tightness by the decay ratio gap(eps/10) <= gap(eps)/30 + 1e-7",
 ]
 
 
@@ -316,7 +316,8 @@ def _run_tight(case):
             if np.any(np.abs(mh) < 4 * sh):
                 fails.append(Failure("excluded:relu_kink_in_mass", f"eps={eps}"))
                 continue
-        if g2 > max(g1, 0.0) / 30.0 + 1e-9:
+        # absolute slack 1e-7: the variational parameters come from a fixed-point iteration stopped at 1e-5
+        if g2 > max(g1, 0.0) / 30.0 + 1e-7:
             fails.append(Failure(f"tight[{kind}]:decay", f"{kind}: gap({eps/10:g})={g2:.3e} is not <= gap({eps:g})/30={g1/30:.3e}", gaps={str(k): v for k, v in gaps.items()}, **kf))
     return fails
 
